@@ -1238,8 +1238,173 @@ class FontTransforms(Unit):
         rec.witness("harfbuzz third opinion")
 
 
+# ------------------------------------------------------------------ E3b generated fonts with subroutines
+MASK1, MASK2, MASK3 = b"\xa0", b"\x60", b"\xc0"
+# local subroutines (index -> program); 0 and 5 are never called (so pruning renumbers)
+LSUBRS = (
+    [1, 2, "rlineto", "return"],                                  # 0 unused
+    [10, 20, "hstemhm", "return"],                                # 1 stems
+    [3, 4, "rlineto", 5, "hlineto", "return"],                    # 2 path
+    [2 - 107, "callsubr", 7, "vlineto", "return"],                # 3 nested local -> local
+    [0 - 107, "callgsubr", 6, "vlineto", "return"],               # 4 nested local -> global
+    [9, 9, "rlineto", "return"],                                  # 5 unused
+    [9, "hlineto", "endchar"],                                    # 6 endchar inside the subroutine
+    [10, 20, "hstemhm", 30, 40, "return"],                        # 7 stems + operands of an implied vstem
+    [-33, 10, 20, "hstem", "return"],                             # 8 width operand and stems inside the subroutine
+    ["hintmask", MASK3, 2, 3, "rlineto", "return"],               # 9 hintmask inside the subroutine
+)
+GSUBRS = (
+    [-4, -6, "rlineto", "return"],                                # 0 path
+    [8, 8, "rlineto", "return"],                                  # 1 unused
+    [12, 22, "vstemhm", "return"],                                # 2 stems
+    [0 - 107, "callgsubr", 8, "hlineto", "return"],               # 3 nested global -> global
+)
+L = lambda i: [i - 107, "callsubr"]
+G = lambda i: [i - 107, "callgsubr"]
+SYN_HINTS = (
+    ("none", [], 0, False),
+    ("inline-stem", [10, 20, "hstem"], 1, False),
+    ("inline-stems+mask", [10, 20, "hstemhm", 30, 40, "vstemhm", "hintmask", MASK1], 2, True),
+    ("lsubr-stems+mask", L(1) + ["hintmask", MASK1], 1, True),
+    ("lsubr-stems+implied-vstem", L(7) + ["hintmask", MASK1], 2, True),
+    ("inline+gsubr-stems+mask", [10, 20, "hstemhm"] + G(2) + ["hintmask", MASK1], 2, True),
+    ("lsubr+gsubr-stems+cntrmask", L(1) + G(2) + ["cntrmask", MASK2, "hintmask", MASK1], 2, True),
+    ("width-and-stem-in-lsubr", L(8), 1, False),
+)
+SYN_PATHS = (
+    ("inline", [3, 4, "rlineto"]),
+    ("lsubr", L(2)),
+    ("gsubr", G(0)),
+    ("lsubr->lsubr", L(3)),
+    ("lsubr->gsubr", L(4)),
+    ("gsubr->gsubr", G(3)),
+    ("lsubr-with-hintmask", L(9)),
+)
+
+
+def syn_glyph(h, p, variant):
+    """One glyph program; `variant` toggles width operand and where endchar sits."""
+    hname, hprog, nh, masks = SYN_HINTS[h]
+    pname, pprog = SYN_PATHS[p]
+    if pname == "lsubr-with-hintmask" and nh == 0:
+        pprog = SYN_PATHS[0][1]
+    prog = []
+    width = None
+    if hname == "width-and-stem-in-lsubr":
+        width = NOMINAL - 33
+    elif variant & 1:
+        width = NOMINAL + 17 + h
+        prog.append(17 + h)
+    prog += list(hprog)
+    prog += [11 + p, 13 + h, "rmoveto"] + list(pprog)
+    if masks:
+        prog += ["hintmask", MASK2]
+    prog += [7, "vlineto"]
+    if variant & 2:
+        prog += L(6)
+    else:
+        prog += ["endchar"]
+    return prog, (DEFAULT if width is None else width)
+
+
+def build_syn_font(spec):
+    """spec = [[h, p, variant], ...] -> bytes of a CFF font .notdef + one glyph per entry."""
+    from fontTools.fontBuilder import FontBuilder
+    from fontTools.cffLib import SubrsIndex
+
+    names = [".notdef"] + ["g%d" % k for k in range(len(spec))]
+    fb = FontBuilder(1000, isTTF=False)
+    fb.setupGlyphOrder(names)
+    fb.setupCharacterMap({0x41 + k: "g%d" % k for k in range(len(spec))})
+    css = {".notdef": T2CharString(program=[100, "hmoveto", 50, "hlineto", 50, "vlineto", "endchar"])}
+    widths = {".notdef": DEFAULT}
+    for k, (h, p, v) in enumerate(spec):
+        prog, w = syn_glyph(h, p, v)
+        css["g%d" % k] = T2CharString(program=prog)
+        widths["g%d" % k] = w
+    fb.setupCFF("Syn", {"FullName": "Syn"}, css, {"nominalWidthX": NOMINAL, "defaultWidthX": DEFAULT})
+    cff = fb.font["CFF "].cff
+    priv = cff.topDictIndex[0].Private
+    priv.Subrs = SubrsIndex()
+    for prog in LSUBRS:
+        priv.Subrs.append(T2CharString(program=list(prog), private=priv, globalSubrs=cff.GlobalSubrs))
+    for prog in GSUBRS:
+        cff.GlobalSubrs.append(T2CharString(program=list(prog), private=priv, globalSubrs=cff.GlobalSubrs))
+    fb.setupHorizontalMetrics({g: (w, 0) for g, w in widths.items()})
+    fb.setupHorizontalHeader(ascent=800, descent=-200)
+    fb.setupNameTable({"familyName": "Syn", "styleName": "Regular"})
+    fb.setupOS2()
+    fb.setupPost()
+    buf = io.BytesIO()
+    fb.font.save(buf)
+    return buf.getvalue()
+
+
+SYN_TRANSFORMS = ("desubroutinize", "remove_hints", "desubroutinize+remove_hints", "remove_unused_subroutines",
+                  "subset-half", "subset-other-half", "subset-half-desubroutinize-no-hinting", "cff-to-cff2",
+                  "cff-to-cff2-to-cff-glyphs-loaded")
+
+
+class SyntheticFonts(FontTransforms):
+    name = "generated-subr-fonts"
+    rule = ("generated CFF fonts .notdef + 2 glyphs over 10 local / 4 global subroutines (2+1 never called): glyph = width? x 8 hint set-ups "
+            "(none, inline stems, stems in a local / global subroutine, operands of an implied vstem left by a subroutine, cntrmask, width operand "
+            "inside the subroutine) x 7 path set-ups (inline, local, global, nested l->l, l->g, g->g, hintmask inside a subroutine) x endchar inline / "
+            "inside a subroutine; all ordered glyph pairs in thorough, first glyph over all 56 kinds x second over 8 kinds in quick; x 9 transforms; "
+            "oracle as font-transforms; distinct = each (font, transform)")
+    required_witnesses = ("subroutine calls inlined", "nested subroutine inlined", "stem hints removed", "hintmask removed", "cntrmask removed",
+                          "unused subroutines dropped", "subroutine calls renumbered", "width operand dropped for CFF2",
+                          "width operand re-encoded (CFF2->CFF)", "subset dropped glyphs", "global and local subroutines in one font",
+                          "second glyph re-uses a hint subroutine of the first")
+    chunk = 9  # = number of transforms: one shard builds one font once
+
+    def setup(self, tier, seed):
+        import fontTools.subset  # noqa: F401
+        import fontTools.fontBuilder  # noqa: F401
+        import fontTools.cffLib.CFFToCFF2  # noqa: F401
+        import fontTools.cffLib.CFF2ToCFF  # noqa: F401
+
+        self.tier = tier
+        self.fonts = None
+        self._built = {}
+
+    def bounds(self, tier, seed):
+        return {"hint_setups": [h[0] for h in SYN_HINTS], "path_setups": [p[0] for p in SYN_PATHS], "glyphs_per_font": 2,
+                "transforms": list(SYN_TRANSFORMS), "second_glyph_kinds": 8 if tier == "quick" else 56}
+
+    def cases(self, tier, seed):
+        kinds = [(h, p) for h in range(len(SYN_HINTS)) for p in range(len(SYN_PATHS))]
+        seconds = kinds if tier != "quick" else [(h, (h + 3 + seed) % len(SYN_PATHS)) for h in range(len(SYN_HINTS))]
+        for (h1, p1) in kinds:
+            for (h2, p2) in seconds:
+                v1 = (h1 + p1 + seed) % 4
+                v2 = (h2 + 2 * p2 + h1 + seed) % 4
+                for t in SYN_TRANSFORMS:
+                    yield [[[h1, p1, v1], [h2, p2, v2]], "syn", t]
+
+    def check(self, case, rec):
+        spec, _n, t = case
+        key = repr(spec)
+        if key not in self._built:
+            self._built.clear()
+            self._built[key] = build_syn_font(spec)
+        data = self._built[key]
+        name = "generated font " + "+".join("%s/%s/v%d" % (SYN_HINTS[h][0], SYN_PATHS[p][0], v) for h, p, v in spec)
+        self.fonts = [(name, "CFF ", data, -1)]
+        if SYN_HINTS[spec[0][0]][0] == SYN_HINTS[spec[1][0]][0] and "subr" in SYN_HINTS[spec[0][0]][0]:
+            rec.witness("second glyph re-uses a hint subroutine of the first")
+        FontTransforms.check(self, [0, name, t], rec)
+
+    def harfbuzz(self, rec, t, i, data, fname):
+        return
+
+
 # ------------------------------------------------------------------ optimizeWidths
 WIDTH_ATOMS = (0, 1, 500, 501, 1000)
+# atoms on both sides of the 1-byte/2-byte (107/108) and 2-byte/longer (1131/1132) operand sizes
+# (three widths 107 apart plus a far one make the optimal nominal unique: measured to expose wrong 107/108 resp. 1131/1132 constants)
+WIDTH_ATOMS_107 = (0, 107, 214, 215, 700)
+WIDTH_ATOMS_1131 = (0, 1131, 1132, 2262, 2263, 2264, 4000)
 
 
 def my_cost(widths, default, nominal):
@@ -1255,33 +1420,53 @@ def my_cost(widths, default, nominal):
 
 class Widths(Unit):
     name = "optimize-widths"
-    rule = ("all multisets of size 1..5 over {0,1,500,501,1000} (251): optimizeWidths returns (default, nominal) whose cost equals "
+    rule = ("all multisets of size 1..5 over {0,1,500,501,1000} (251), of size 1..5 over {0,107,214,215,700} (251) and of "
+            "size 1..4 over {0,1131,1132,2262,2263,2264,4000} (329): optimizeWidths returns (default, nominal) whose cost equals "
             "optimizeWidthsBruteforce's and an independent exhaustive minimum (nominal over [min,max], default over the widths or none); "
             "every width is recovered exactly when written as 'omitted if == default else w - nominal' and read back by the reference "
             "interpreter and by T2CharString.draw; the same multiset as the hmtx of a generated CFF2 font: convertCFF2ToCFF writes "
             "defaultWidthX/nominalWidthX/width operands from which every advance is recovered; distinct = each multiset")
     required_witnesses = ("default width used (operand omitted)", "2-byte width operand", "1-byte width operand",
-                          "bruteforce compared", "font round trip checked")
+                          "bruteforce compared", "font round trip checked", "width operand of exactly +-107", "width operand of exactly +-1131",
+                          "widths 107 apart", "widths 108 apart", "widths 1131 apart", "widths 1132 apart")
     chunk = 1
 
     def bounds(self, tier, seed):
-        return {"atoms": list(WIDTH_ATOMS), "max_size": 5, "bruteforce_max_size": 3 if tier == "quick" else 5}
+        return {"atoms": [list(WIDTH_ATOMS), list(WIDTH_ATOMS_107), list(WIDTH_ATOMS_1131)], "max_size": [5, 5, 4],
+                "bruteforce_max_size": [3 if tier == "quick" else 5, 2 if tier == "quick" else 4, 0]}
 
     def cases(self, tier, seed):
-        bf = 3 if tier == "quick" else 5
+        quick = tier == "quick"
         for n in range(1, 6):
             for ms in itertools.combinations_with_replacement(WIDTH_ATOMS, n):
-                yield [list(ms), n <= bf]
+                yield [list(ms), n <= (3 if quick else 5)]
+        for n in range(1, 6):
+            for ms in itertools.combinations_with_replacement(WIDTH_ATOMS_107, n):
+                yield [list(ms), n <= (2 if quick else 4)]
+        for n in range(1, 5):
+            for ms in itertools.combinations_with_replacement(WIDTH_ATOMS_1131, n):
+                yield [list(ms), False]
 
     def check(self, case, rec):
         widths, brute = case
         rec.nontrivial()
+        for a, b in itertools.combinations(sorted(set(widths)), 2):
+            if b - a in (107, 108, 1131, 1132):
+                rec.witness("widths %d apart" % (b - a))
         default, nominal = optimizeWidths(list(widths))
         cost = my_cost(widths, default, nominal)
         if cost != byteCost(widths, default, nominal):
             rec.violation("widths:byteCost", "byteCost(%s, %s, %s) = %s, T2 operand sizes give %s" % (widths, default, nominal, byteCost(widths, default, nominal), cost))
         lo, hi = min(widths), max(widths)
-        best = min(my_cost(widths, d, n) for n in range(lo, hi + 1) for d in sorted(set(widths)) + [None])
+        defaults = sorted(set(widths)) + [None]
+        # the cost is a step function of the nominal width: it changes only where some |w - n|
+        # passes 107/108 or 1131/1132, so the minimum is attained at one of these candidates
+        cand = sorted({min(max(w + d, lo), hi) for w in widths for d in (0, 107, -107, 108, -108, 1131, -1131, 1132, -1132)} | {lo, hi})
+        best = min(my_cost(widths, d, n) for n in cand for d in defaults)
+        if hi - lo <= 1000:
+            full = min(my_cost(widths, d, n) for n in range(lo, hi + 1) for d in defaults)
+            if full != best:
+                rec.violation("selfcheck:width-minimum", "candidate minimum %d != full-scan minimum %d for %s" % (best, full, widths))
         if cost != best:
             rec.violation("widths:not-optimal", "optimizeWidths(%s) = (%s, %s) costs %d bytes, the minimum is %d" % (widths, default, nominal, cost, best))
         if brute:
@@ -1306,6 +1491,8 @@ class Widths(Unit):
             else:
                 n = len(t2ref.encode_int(w - nominal))
                 rec.witness("%d-byte width operand" % n)
+                if abs(w - nominal) in (107, 108, 1131, 1132):
+                    rec.witness("width operand of exactly +-%d" % abs(w - nominal))
         self.font_roundtrip(widths, rec)
 
     def font_roundtrip(self, widths, rec):
@@ -1351,4 +1538,4 @@ class Widths(Unit):
 
 
 def units():
-    return [SpecGen(), StackRuns(), OpForms(), Blends(), FontTransforms(), Widths()]
+    return [SpecGen(), StackRuns(), OpForms(), Blends(), FontTransforms(), SyntheticFonts(), Widths()]
